@@ -287,6 +287,11 @@ func (r *Run) bearerVariant(b *BearerKeySpec, v string) (map[string]interface{},
 		return map[string]interface{}{"jti": "-"}, MustNot, scope
 	case "scope_outside":
 		return nil, MustNot, "photos admin"
+	case "scope_client_only":
+		// covered by the authenticated client's registration, but not by the key's: the key's registration decides
+		return nil, MustNot, t3(has(b.Scopes, "mail.*"), "users.read", "mail.read")
+	case "no_scope":
+		return nil, Must, ""
 	case "scope_wild_ok":
 		if has(b.Scopes, "mail.*") && (r.W.K.ScopeStrategy == "" || r.W.K.ScopeStrategy == "wildcard") {
 			return nil, Must, "mail.read"
@@ -303,7 +308,7 @@ func (r *Run) bearerVariant(b *BearerKeySpec, v string) (map[string]interface{},
 }
 
 var bearerVariants = []string{"ok", "ok", "ok", "aud_array", "wrong_key", "unknown_iss", "unknown_sub", "iss_missing", "sub_missing", "aud_wrong", "aud_missing", "exp_past", "exp_just_past", "exp_past_45s", "exp_soon", "nbf_just_ahead", "exp_missing",
-	"exp_too_far", "exp_within_max", "old_iat_exp_beyond_max", "old_iat_within_max", "nbf_future", "nbf_past", "iat_missing", "jti_missing", "scope_outside", "scope_wild_ok", "alg_none", "alg_hs256", "kid_unknown", "replay", "replay"}
+	"exp_too_far", "exp_within_max", "old_iat_exp_beyond_max", "old_iat_within_max", "nbf_future", "nbf_past", "iat_missing", "jti_missing", "scope_outside", "scope_client_only", "scope_client_only", "no_scope", "scope_wild_ok", "alg_none", "alg_hs256", "kid_unknown", "replay", "replay"}
 
 func (r *Run) opBearerAssert(st Step) {
 	if len(r.W.K.BearerKeys) == 0 {
@@ -328,6 +333,18 @@ func (r *Run) opBearerAssert(st Step) {
 	} else {
 		over, e, sc := r.bearerVariant(b, v)
 		exp, scope = e, sc
+		// whatever else the variant is about: every requested scope has to be covered by the scopes registered with the signing
+		// key (a key registered without scopes covers none)
+		for _, s := range splitNonEmpty(scope) {
+			switch RefScopeMatch(r.W.K.ScopeStrategy, b.Scopes, s) {
+			case No:
+				exp = MustNot
+			case Open:
+				if exp == Must {
+					exp = Unspec
+				}
+			}
+		}
 		assertion, jti = r.bearerAssertion(b, over)
 		if exp == Must {
 			r.lastAssertion[key], r.lastJTI[key] = assertion, jti
@@ -376,7 +393,7 @@ func (r *Run) opBearerAssert(st Step) {
 		if v == "exp_past" || v == "exp_just_past" || v == "exp_past_45s" {
 			r.violate("C07", "honoured-but-must-not", "bearer_assertion:"+v, "an expired JWT-bearer assertion (%s) was accepted", v)
 		}
-		if v == "scope_outside" {
+		if v == "scope_outside" || v == "scope_client_only" {
 			r.violate("C12", "scope-outside-registration", "jwt_bearer", "a JWT-bearer grant accepted scope %q, the key's scopes are %v", scope, b.Scopes)
 		}
 	case exp == Must && !tokens:
@@ -417,7 +434,7 @@ func init() {
 				}
 				steps = append(steps, ca)
 			case 1:
-				steps = append(steps, Step{Op: "bearer_assert", C: t.Intn(2), D: int64(t.Intn(2)), V: t.Pick(bearerVariants), A: t.Pick([]string{"", "", "", "none", "bad_secret"})})
+				steps = append(steps, Step{Op: "bearer_assert", C: t.Intn(2), D: int64(t.Intn(3)), V: t.Pick(bearerVariants), A: t.Pick([]string{"", "", "", "none", "bad_secret"})})
 			case 2:
 				switch t.Intn(3) {
 				case 0:
@@ -444,4 +461,11 @@ func init() {
 		return &Plan{Profile: "c15", Prop: "C15", K: k, Steps: steps}
 	}})
 	regProp(&PropSpec{ID: "C15", Profiles: []string{"c15"}, Characteristic: []string{"assert-variant:", "jti-concurrent"}, Enumerate: enumerateConcFor("C15")})
+}
+
+func t3(c bool, a, b string) string {
+	if c {
+		return a
+	}
+	return b
 }
